@@ -135,6 +135,12 @@ def memo_table_inputs(draw):
               "cases": [{"default": False, "head": {"ch": "val", "v": {"t": "int", "v": j}}, "body": [{"k": "ctl", "v": "break"}] if (j == ncase - 1 or draw(st.booleans())) else []} for j in range(ncase)]}
         body = [op() for _ in range(npre)] + [sw] + [op() for _ in range(draw(st.integers(0, 2)))] + [{"k": "ctl", "v": "end"}]
         items.append({"kind": "ssb", "memo": "switch", "case": {"stratum": 1, "prog": {"imports": [], "macros": [], "routines": [{"kind": "def", "id": 0, "name": None, "target": None, "alias": False, "body": body}]}, "gaps": [0]}})
+    # ... and a routine set on which convert() gives up inside a pass: whatever that pass had stored stays behind (this is
+    # how F-C11-4 was found: the entries of a graph that no longer exists were read for a later graph with the same id)
+    from vf.checks import c12
+
+    f = draw(c12.failing_item())
+    items.append({"kind": "ssb", "memo": "loop", "failing": True, "case": f["case"]})
     return items
 
 
